@@ -73,6 +73,8 @@ PROPS = {
             S("nodebig", ["--cases", 8], ["--cases", 200], profile="checked"),
             S("simraw", ["--cases", 100], ["--cases", 5000]),
             S("simraw", ["--cases", 100], ["--cases", 5000], profile="checked"),
+            # late acknowledgements with several connections, debug assertions on (send_wantlist's asserts: F14, repaired)
+            S("simlate", ["--cases", 60, "--conns", 3], ["--cases", 3000, "--conns", 3, "--nodes", 4], profile="checked"),
         ],
     ),
     "C09": dict(
@@ -138,7 +140,7 @@ PROPS = {
         lean_modules=["Beetswap.Props.C05"],
         validate_handler_traces=True,
         model_scope=NODE_SCOPE + "; the connection handler (ClientConnectionHandler) is exercised in the simulator, not modelled in a theorem" + "; " + HANDLER_SCOPE,
-        assumptions=NODE_ASSUME + ["acknowledgements from connection handlers are not late (a handler that is alive reports RequestReceived within 1 s): violations under late acknowledgements are the known findings F13 / F14",
+        assumptions=NODE_ASSUME + ["acknowledgements from connection handlers are not late (a handler that is alive reports RequestReceived within 1 s): under late acknowledgements a live connection (and with its last connection the peer) is given up, known finding F13",
                                    "Tier 2 simulator: libp2p-swarm / yamux / multistream-select over the memory transport under a harness-owned executor and virtual clock"],
         validate_conn_traces=True,
         streams=[
@@ -151,7 +153,7 @@ PROPS = {
         lean_modules=["Beetswap.Props.C14"],
         model_scope=HANDLER_SCOPE + "; " + NODE_SCOPE,
         assumptions=NODE_ASSUME + ["yamux delivers the bytes of a flushed frame in order on its stream (assumed)",
-                                   "the behaviour hands a connection a new wantlist only after the handler reported the outcome of the previous one: holds unless acknowledgements are late (known finding F14)",
+                                   "libp2p-swarm's event channels as in Model/ClientLink: a SendWantlist reaches the handler of the connection it was addressed to or is dropped when that connection is closing; a handler's events reach the behaviour in order with the id of their connection; ConnectionClosed follows poll_close (checked on every recorded run by the channel monitor, assumed in the theorem)",
                                    "Tier 2 simulator: libp2p-swarm / yamux / multistream-select over the memory transport under a harness-owned executor and virtual clock"],
         validate_handler_traces=True,
         validate_conn_traces=True,
@@ -165,12 +167,14 @@ PROPS = {
     "C15": dict(
         lean_modules=["Beetswap.Props.C15"],
         model_scope=NODE_SCOPE + "; " + HANDLER_SCOPE,
-        assumptions=NODE_ASSUME + ["late acknowledgements excluded (known finding F14)", "Tier 2 simulator as in C05"],
+        assumptions=NODE_ASSUME + ["Tier 2 simulator as in C05"],
         validate_conn_traces=True,
         streams=[
             S("node", ["--cases", 100, "--peers", 2], ["--cases", 5000, "--peers", 2, "--ops", 150]),
             S("sim", ["--cases", 120, "--conns", 3], ["--cases", 6000, "--conns", 3, "--nodes", 4]),
             S("simfault", ["--cases", 80, "--conns", 3], ["--cases", 4000, "--conns", 3]),
+            # several connections with starved connection tasks: reports of given-up connections (F14, repaired)
+            S("simlate", ["--cases", 80, "--conns", 3], ["--cases", 4000, "--conns", 3, "--nodes", 4]),
         ],
     ),
     "C17": dict(
